@@ -16,6 +16,8 @@ import (
 	"net/http"
 	"net/url"
 
+	"google.golang.org/grpc"
+
 	"github.com/fullstorydev/grpchan/internal/zzfix"
 	zv "github.com/fullstorydev/grpchan/internal/zzverif"
 )
@@ -320,4 +322,11 @@ func (r *verifRouter) RoundTrip(req *http.Request) (*http.Response, error) {
 		return r.stream.RoundTrip(req)
 	}
 	return r.unary.RoundTrip(req)
+}
+
+// VerifHTTPChannel is the exported form of verifHTTP for harnesses that live
+// outside this package (cross-transport harnesses).
+func VerifHTTPChannel(h *zzfix.Hooks) grpc.ClientConnInterface {
+	ch, _, _ := verifHTTP(h)
+	return ch
 }
